@@ -28,10 +28,15 @@
 (*      frame's current scheduler (inherited from the parent, changed only *)
 (*      by co_await schedule(s), which resumes on s); the outermost task   *)
 (*      completes on the receiver's scheduler (context 0).                 *)
-(* IOEnv.PROP selects the rule set: "C10", "C11" or "ALL".                 *)
+(*  C04 (opt-in) no stop callback is still registered on the receiver's    *)
+(*      token when the receiver is completed (RootComplete.regs = 0, where *)
+(*      regs counts callbacks neither deregistered nor dequeued for        *)
+(*      execution), and no leaf observes a stop request afterwards.        *)
+(* IOEnv.PROP selects the rule set: "C10", "C11", "C04" or "ALL"(=C10+C11).*)
 (***************************************************************************)
 EXTENDS Integers, Sequences, FiniteSets, TLC, TraceIO
-On(p) == IOEnv.PROP = p \/ IOEnv.PROP = "ALL"
+\* "ALL" = C10 + C11 (the rule sets this engine is the oracle for); "C04" is opt-in only
+On(p) == IOEnv.PROP = p \/ (IOEnv.PROP = "ALL" /\ p # "C04")
 Fr == 0..5
 LeafIds == 0..12
 NONE == [ch |-> "none", p |-> <<>>]
@@ -46,13 +51,15 @@ VARIABLES l,
           locals,     \* [Fr -> set of live locals]
           regs,       \* [Fr -> stack of registered cleanup actions not yet run]
           gone,       \* [Fr -> frame destroyed]
-          lrun, lch, lcb, seen
-vars == <<l, started, rootCount, stopReq, fst, res, aw, mode, sch, locals, regs, gone, lrun, lch, lcb, seen>>
+          lrun, lch, lcb, seen,
+          cbusy       \* [Fr -> id of the frame's cleanup action that has begun and not finished (0 = none)]
+vars == <<l, started, rootCount, stopReq, fst, res, aw, mode, sch, locals, regs, gone, lrun, lch, lcb, seen, cbusy>>
 Fresh == /\ started = FALSE /\ rootCount = 0 /\ stopReq = FALSE
          /\ fst = [k \in Fr |-> "idle"] /\ res = [k \in Fr |-> NONE] /\ aw = [k \in Fr |-> NoAw]
          /\ mode = [k \in Fr |-> "R"] /\ sch = [k \in Fr |-> 0]
          /\ locals = [k \in Fr |-> {}] /\ regs = [k \in Fr |-> <<>>] /\ gone = [k \in Fr |-> FALSE]
          /\ lrun = [i \in LeafIds |-> FALSE] /\ lch = [i \in LeafIds |-> ""] /\ lcb = [i \in LeafIds |-> FALSE] /\ seen = {}
+         /\ cbusy = [k \in Fr |-> 0]
 Init == l = 1 /\ Fresh /\ TrackInit
 E == Log[l]
 Is(e) == l <= Len(Log) /\ E.e = e /\ l' = l + 1
@@ -76,71 +83,82 @@ Reset == /\ Is("Reset")
          /\ mode' = [k \in Fr |-> "R"] /\ sch' = [k \in Fr |-> 0]
          /\ locals' = [k \in Fr |-> {}] /\ regs' = [k \in Fr |-> <<>>] /\ gone' = [k \in Fr |-> FALSE]
          /\ lrun' = [i \in LeafIds |-> FALSE] /\ lch' = [i \in LeafIds |-> ""] /\ lcb' = [i \in LeafIds |-> FALSE] /\ seen' = {}
+         /\ cbusy' = [k \in Fr |-> 0]
 Other == /\ (Is("Connect") \/ Is("StartEnd") \/ Is("OpDestroy") \/ Is("Drain") \/ Is("RunCtx") \/ Is("SchedStart"))
-         /\ UNCHANGED <<started, rootCount, stopReq, fst, res, aw, mode, sch, locals, regs, gone, lrun, lch, lcb, seen>>
+         /\ UNCHANGED <<started, rootCount, stopReq, fst, res, aw, mode, sch, locals, regs, gone, lrun, lch, lcb, seen, cbusy>>
 StartBegin == /\ Is("StartBegin") /\ ~started /\ started' = TRUE
-              /\ UNCHANGED <<rootCount, stopReq, fst, res, aw, mode, sch, locals, regs, gone, lrun, lch, lcb, seen>>
+              /\ UNCHANGED <<rootCount, stopReq, fst, res, aw, mode, sch, locals, regs, gone, lrun, lch, lcb, seen, cbusy>>
 ExtStop == /\ Is("ExtStop") /\ stopReq' = TRUE
-           /\ UNCHANGED <<started, rootCount, fst, res, aw, mode, sch, locals, regs, gone, lrun, lch, lcb, seen>>
+           /\ UNCHANGED <<started, rootCount, fst, res, aw, mode, sch, locals, regs, gone, lrun, lch, lcb, seen, cbusy>>
 \* ---- frames
 BodyEv == /\ Is("Body") /\ fst[E.k] = "idle"
           /\ IF E.k = 0 THEN started /\ sch' = [sch EXCEPT ![0] = 0] /\ OnCtx(0)
              ELSE \E q \in Fr : /\ Running(q) /\ aw[q] = [t |-> "task", n |-> E.k]
                                 /\ sch' = [sch EXCEPT ![E.k] = sch[q]] /\ OnCtx(sch[q])
           /\ fst' = [fst EXCEPT ![E.k] = "run"]
-          /\ UNCHANGED <<started, rootCount, stopReq, res, aw, mode, locals, regs, gone, lrun, lch, lcb, seen>>
+          /\ UNCHANGED <<started, rootCount, stopReq, res, aw, mode, locals, regs, gone, lrun, lch, lcb, seen, cbusy>>
 LocalCtor == /\ Is("LocalCtor") /\ (On("C10") => Idle(E.k))
              /\ locals' = [locals EXCEPT ![E.k] = @ \cup {E.a}]
-             /\ UNCHANGED <<started, rootCount, stopReq, fst, res, aw, mode, sch, regs, gone, lrun, lch, lcb, seen>>
+             /\ UNCHANGED <<started, rootCount, stopReq, fst, res, aw, mode, sch, regs, gone, lrun, lch, lcb, seen, cbusy>>
 LocalDtor == /\ Is("LocalDtor") /\ (On("C10") => E.a \in locals[E.k])            \* destroyed at most once
              /\ locals' = [locals EXCEPT ![E.k] = @ \ {E.a}]
-             /\ UNCHANGED <<started, rootCount, stopReq, fst, res, aw, mode, sch, regs, gone, lrun, lch, lcb, seen>>
+             /\ UNCHANGED <<started, rootCount, stopReq, fst, res, aw, mode, sch, regs, gone, lrun, lch, lcb, seen, cbusy>>
 RegEv == /\ Is("Reg") /\ (On("C10") => Idle(E.k)) /\ OnCtx(sch[E.k])
          /\ regs' = [regs EXCEPT ![E.k] = <<E.a>> \o @]
-         /\ UNCHANGED <<started, rootCount, stopReq, fst, res, aw, mode, sch, locals, gone, lrun, lch, lcb, seen>>
+         /\ UNCHANGED <<started, rootCount, stopReq, fst, res, aw, mode, sch, locals, gone, lrun, lch, lcb, seen, cbusy>>
+\* a cleanup action that suspends logs CleanupBegin when it starts and Cleanup when it has finished
+CleanupBegin == /\ Is("CleanupBegin")
+                /\ On("C10") => /\ regs[E.k] # <<>> /\ Head(regs[E.k]) = E.a /\ cbusy[E.k] = 0
+                                /\ Exiting(E.k)
+                /\ cbusy' = [cbusy EXCEPT ![E.k] = E.a]
+                /\ fst' = [fst EXCEPT ![E.k] = IF res[E.k] = NONE THEN "unw" ELSE @]
+                /\ UNCHANGED <<started, rootCount, stopReq, res, aw, mode, sch, locals, regs, gone, lrun, lch, lcb, seen>>
 CleanupEv == /\ Is("Cleanup")
              /\ On("C10") => /\ regs[E.k] # <<>> /\ Head(regs[E.k]) = E.a      \* exactly once, reverse registration order
+                             /\ cbusy[E.k] \in {0, E.a}                          \* actions of a frame do not overlap
                              /\ Exiting(E.k)                                       \* only on an exit path
              /\ regs' = [regs EXCEPT ![E.k] = IF @ # <<>> /\ Head(@) = E.a THEN Tail(@) ELSE @]
+             /\ cbusy' = [cbusy EXCEPT ![E.k] = 0]
              /\ fst' = [fst EXCEPT ![E.k] = IF res[E.k] = NONE THEN "unw" ELSE @]
              /\ UNCHANGED <<started, rootCount, stopReq, res, aw, mode, sch, locals, gone, lrun, lch, lcb, seen>>
 FrameGoneEv == /\ Is("FrameGone") /\ (On("C10") => ~gone[E.k])
                /\ gone' = [gone EXCEPT ![E.k] = TRUE]
-               /\ UNCHANGED <<started, rootCount, stopReq, fst, res, aw, mode, sch, locals, regs, lrun, lch, lcb, seen>>
+               /\ UNCHANGED <<started, rootCount, stopReq, fst, res, aw, mode, sch, locals, regs, lrun, lch, lcb, seen, cbusy>>
 \* ---- leaves
 AwaitEv == /\ Is("Await") /\ (On("C10") => Idle(E.k))
            /\ aw' = [aw EXCEPT ![E.k] = [t |-> "leaf", n |-> E.l]]
            /\ lch' = [lch EXCEPT ![E.l] = ""]
-           /\ UNCHANGED <<started, rootCount, stopReq, fst, res, mode, sch, locals, regs, gone, lrun, lcb, seen>>
+           /\ UNCHANGED <<started, rootCount, stopReq, fst, res, mode, sch, locals, regs, gone, lrun, lcb, seen, cbusy>>
 LeafStart == /\ Is("LeafStart")
              /\ On("C10") => (E.stopped = 1 => stopReq)
              /\ lrun' = [lrun EXCEPT ![E.l] = TRUE] /\ lcb' = [lcb EXCEPT ![E.l] = (E.aw = 0)]
-             /\ UNCHANGED <<started, rootCount, stopReq, fst, res, aw, mode, sch, locals, regs, gone, lch, seen>>
+             /\ UNCHANGED <<started, rootCount, stopReq, fst, res, aw, mode, sch, locals, regs, gone, lch, seen, cbusy>>
 LeafStopSeen == /\ Is("LeafStopSeen")
                 /\ On("C10") => (stopReq /\ lrun[E.l])         \* no spurious stop, none after completion
+                /\ On("C04") => rootCount = 0                  \* the receiver's token is not used after its completion
                 /\ seen' = seen \cup {E.l}
-                /\ UNCHANGED <<started, rootCount, stopReq, fst, res, aw, mode, sch, locals, regs, gone, lrun, lch, lcb>>
+                /\ UNCHANGED <<started, rootCount, stopReq, fst, res, aw, mode, sch, locals, regs, gone, lrun, lch, lcb, cbusy>>
 LeafComplete == /\ Is("LeafComplete")
                 /\ lrun' = [lrun EXCEPT ![E.l] = FALSE] /\ lch' = [lch EXCEPT ![E.l] = E.ch]
-                /\ UNCHANGED <<started, rootCount, stopReq, fst, res, aw, mode, sch, locals, regs, gone, lcb, seen>>
+                /\ UNCHANGED <<started, rootCount, stopReq, fst, res, aw, mode, sch, locals, regs, gone, lcb, seen, cbusy>>
 AwaitValue == /\ Is("AwaitValue")
               /\ On("C10") => /\ Running(E.k) /\ aw[E.k] = [t |-> "leaf", n |-> E.n]
                               /\ lch[E.n] = "v" /\ E.p = <<E.n>>
               /\ OnCtx(sch[E.k])
               /\ aw' = [aw EXCEPT ![E.k] = NoAw]
-              /\ UNCHANGED <<started, rootCount, stopReq, fst, res, mode, sch, locals, regs, gone, lrun, lch, lcb, seen>>
+              /\ UNCHANGED <<started, rootCount, stopReq, fst, res, mode, sch, locals, regs, gone, lrun, lch, lcb, seen, cbusy>>
 AwaitThrew == /\ Is("AwaitThrew")
               /\ On("C10") => /\ Running(E.k) /\ aw[E.k] = [t |-> "leaf", n |-> E.n]
                               /\ lch[E.n] = "e" /\ E.p = <<E.n>>
               /\ OnCtx(sch[E.k])
               /\ aw' = [aw EXCEPT ![E.k] = NoAw]
               /\ res' = [res EXCEPT ![E.k] = IF E.re = 1 THEN [ch |-> "e", p |-> E.p] ELSE @]
-              /\ UNCHANGED <<started, rootCount, stopReq, fst, mode, sch, locals, regs, gone, lrun, lch, lcb, seen>>
+              /\ UNCHANGED <<started, rootCount, stopReq, fst, mode, sch, locals, regs, gone, lrun, lch, lcb, seen, cbusy>>
 \* ---- nested tasks
 AwaitTask == /\ Is("AwaitTask") /\ (On("C10") => (Idle(E.k) /\ fst[E.c] = "idle"))
              /\ aw' = [aw EXCEPT ![E.k] = [t |-> "task", n |-> E.c]]
              /\ mode' = [mode EXCEPT ![E.c] = E.mode]
-             /\ UNCHANGED <<started, rootCount, stopReq, fst, res, sch, locals, regs, gone, lrun, lch, lcb, seen>>
+             /\ UNCHANGED <<started, rootCount, stopReq, fst, res, sch, locals, regs, gone, lrun, lch, lcb, seen, cbusy>>
 \* the parent is resumed after child c: all of c's cleanup actions have run, c's locals are gone
 ChildFinished(c) == regs[c] = <<>> /\ locals[c] = {}
 TaskValue == /\ Is("TaskValue")
@@ -149,34 +167,34 @@ TaskValue == /\ Is("TaskValue")
                                 \/ mode[E.n] = "O" /\ E.p = <<0>> /\ CanBeDone(E.n)
              /\ OnCtx(sch[E.k])
              /\ aw' = [aw EXCEPT ![E.k] = NoAw]
-             /\ UNCHANGED <<started, rootCount, stopReq, fst, res, mode, sch, locals, regs, gone, lrun, lch, lcb, seen>>
+             /\ UNCHANGED <<started, rootCount, stopReq, fst, res, mode, sch, locals, regs, gone, lrun, lch, lcb, seen, cbusy>>
 TaskThrew == /\ Is("TaskThrew")
              /\ On("C10") => /\ Running(E.k) /\ aw[E.k] = [t |-> "task", n |-> E.n] /\ ChildFinished(E.n)
                              /\ res[E.n] = [ch |-> "e", p |-> E.p]
              /\ OnCtx(sch[E.k])
              /\ aw' = [aw EXCEPT ![E.k] = NoAw]
              /\ res' = [res EXCEPT ![E.k] = IF E.re = 1 THEN [ch |-> "e", p |-> E.p] ELSE @]
-             /\ UNCHANGED <<started, rootCount, stopReq, fst, mode, sch, locals, regs, gone, lrun, lch, lcb, seen>>
+             /\ UNCHANGED <<started, rootCount, stopReq, fst, mode, sch, locals, regs, gone, lrun, lch, lcb, seen, cbusy>>
 \* ---- schedule / stop_if_requested / exits
 SchedEv == /\ Is("Sched") /\ (On("C10") => Idle(E.k))
            /\ aw' = [aw EXCEPT ![E.k] = [t |-> "sched", n |-> E.to]]
-           /\ UNCHANGED <<started, rootCount, stopReq, fst, res, mode, sch, locals, regs, gone, lrun, lch, lcb, seen>>
+           /\ UNCHANGED <<started, rootCount, stopReq, fst, res, mode, sch, locals, regs, gone, lrun, lch, lcb, seen, cbusy>>
 Switched == /\ Is("Switched") /\ (On("C10") => (Running(E.k) /\ aw[E.k] = [t |-> "sched", n |-> E.to]))
             /\ OnCtx(E.to)
             /\ aw' = [aw EXCEPT ![E.k] = NoAw] /\ sch' = [sch EXCEPT ![E.k] = E.to]
-            /\ UNCHANGED <<started, rootCount, stopReq, fst, res, mode, locals, regs, gone, lrun, lch, lcb, seen>>
+            /\ UNCHANGED <<started, rootCount, stopReq, fst, res, mode, locals, regs, gone, lrun, lch, lcb, seen, cbusy>>
 StopIf == /\ Is("StopIf") /\ (On("C10") => Idle(E.k))
           /\ aw' = [aw EXCEPT ![E.k] = [t |-> "stopif", n |-> 0]]
-          /\ UNCHANGED <<started, rootCount, stopReq, fst, res, mode, sch, locals, regs, gone, lrun, lch, lcb, seen>>
+          /\ UNCHANGED <<started, rootCount, stopReq, fst, res, mode, sch, locals, regs, gone, lrun, lch, lcb, seen, cbusy>>
 NotStopped == /\ Is("NotStopped") /\ (On("C10") => (Running(E.k) /\ aw[E.k].t = "stopif")) /\ OnCtx(sch[E.k])
               /\ aw' = [aw EXCEPT ![E.k] = NoAw]
-              /\ UNCHANGED <<started, rootCount, stopReq, fst, res, mode, sch, locals, regs, gone, lrun, lch, lcb, seen>>
+              /\ UNCHANGED <<started, rootCount, stopReq, fst, res, mode, sch, locals, regs, gone, lrun, lch, lcb, seen, cbusy>>
 Throw == /\ Is("Throw") /\ (On("C10") => Idle(E.k))
          /\ res' = [res EXCEPT ![E.k] = [ch |-> "e", p |-> <<E.a>>]]
-         /\ UNCHANGED <<started, rootCount, stopReq, fst, aw, mode, sch, locals, regs, gone, lrun, lch, lcb, seen>>
+         /\ UNCHANGED <<started, rootCount, stopReq, fst, aw, mode, sch, locals, regs, gone, lrun, lch, lcb, seen, cbusy>>
 Return == /\ Is("Return") /\ (On("C10") => Idle(E.k)) /\ OnCtx(sch[E.k])
           /\ res' = [res EXCEPT ![E.k] = [ch |-> "v", p |-> <<E.a>>]]
-          /\ UNCHANGED <<started, rootCount, stopReq, fst, aw, mode, sch, locals, regs, gone, lrun, lch, lcb, seen>>
+          /\ UNCHANGED <<started, rootCount, stopReq, fst, aw, mode, sch, locals, regs, gone, lrun, lch, lcb, seen, cbusy>>
 \* ---- the outermost task as a sender
 RootComplete ==
   /\ Is("RootComplete")
@@ -186,20 +204,21 @@ RootComplete ==
                        [] E.ch = "e" -> res[0] = [ch |-> "e", p |-> E.p] /\ locals[0] = {}
                        [] OTHER -> CanBeDone(0)
   /\ OnCtx(0)
+  /\ On("C04") => E.regs = 0      \* every stop callback registered on the receiver's token was deregistered (or dequeued for execution)
   /\ rootCount' = rootCount + 1
-  /\ UNCHANGED <<started, stopReq, fst, res, aw, mode, sch, locals, regs, gone, lrun, lch, lcb, seen>>
+  /\ UNCHANGED <<started, stopReq, fst, res, aw, mode, sch, locals, regs, gone, lrun, lch, lcb, seen, cbusy>>
 QuiescentEv ==
   /\ Is("Quiescent")
   /\ On("C10") => /\ (started /\ E.pending = 0) => rootCount = 1          \* no lost completion
                   /\ (stopReq /\ E.ctxp = 0) => \A i \in LeafIds : (lrun[i] /\ lcb[i]) => i \in seen
-  /\ UNCHANGED <<started, rootCount, stopReq, fst, res, aw, mode, sch, locals, regs, gone, lrun, lch, lcb, seen>>
+  /\ UNCHANGED <<started, rootCount, stopReq, fst, res, aw, mode, sch, locals, regs, gone, lrun, lch, lcb, seen, cbusy>>
 EndEv ==
   /\ Is("End")
   /\ On("C10") => /\ E.live = 0 /\ E.bad = 0 /\ E.heap = 0
                   /\ started => E.root = 1
                   /\ \A k \in Fr : fst[k] # "idle" => (gone[k] /\ locals[k] = {} /\ regs[k] = <<>>)
-  /\ UNCHANGED <<started, rootCount, stopReq, fst, res, aw, mode, sch, locals, regs, gone, lrun, lch, lcb, seen>>
-Next == \/ Reset \/ Other \/ StartBegin \/ ExtStop \/ BodyEv \/ LocalCtor \/ LocalDtor \/ RegEv \/ CleanupEv \/ FrameGoneEv
+  /\ UNCHANGED <<started, rootCount, stopReq, fst, res, aw, mode, sch, locals, regs, gone, lrun, lch, lcb, seen, cbusy>>
+Next == \/ Reset \/ Other \/ StartBegin \/ ExtStop \/ BodyEv \/ LocalCtor \/ LocalDtor \/ RegEv \/ CleanupBegin \/ CleanupEv \/ FrameGoneEv
         \/ AwaitEv \/ LeafStart \/ LeafStopSeen \/ LeafComplete \/ AwaitValue \/ AwaitThrew
         \/ AwaitTask \/ TaskValue \/ TaskThrew \/ SchedEv \/ Switched \/ StopIf \/ NotStopped \/ Throw \/ Return
         \/ RootComplete \/ QuiescentEv \/ EndEv
